@@ -836,7 +836,13 @@ def parse_program(text):
                     name = mm.group(1)
                 else:
                     name = re.match(r'^(?:const|static(?: mut)?) (.*?): ', header).group(1)
-            fn = FnParser(name, header, body).parse()
+            try:
+                fn = FnParser(name, header, body).parse()
+            except MirParseError as e:
+                # a body in a MIR form the parser does not know (e.g. std's thread_local! plumbing): kept as a function that cannot be
+                # executed -- reaching it is reported as Unsupported (inconclusive), never guessed
+                fn = Function(name, -1, '', {}, {}, header)
+                fn.debug = {'broken': str(e)}
             if header.startswith('fn '):
                 functions[name] = fn
             else:
@@ -865,6 +871,13 @@ def parse_program(text):
             continue
         if l.strip() == '' or l.startswith('//') or l.startswith('WARNING'):
             i += 1
+            continue
+        if re.match(r'^\S.*\{constant#\d+\}[^=]*: .* = \{$', l.rstrip()):
+            # anonymous (inline) constant, e.g. the accessor generated by thread_local!: never interpreted (LocalKey is a model)
+            j = i + 1
+            while j < n and lines[j] != '}':
+                j += 1
+            i = j + 1
             continue
         raise MirParseError("top-level line %d: %r" % (i + 1, l))
     return Program(functions, consts, allocs)
